@@ -107,7 +107,7 @@ CompoundNext ==
   \/ /\ pc = "unmarshal" /\ prov[1].k # "NONE" /\ Unmarshal("CP", 1, 2, RefDecode("CP", buf[1])) /\ pc' = "done"
 
 \* hist: every call history up to MaxHist calls on one packet and what is decoded from it (C18)
-HistOps == {"marshal1", "size1", "dest1", "string1", "unmarshal12", "datagram13", "marshal2", "dest2", "marshal3", "rebuild1"}
+HistOps == {"marshal1", "size1", "dest1", "string1", "unmarshal12", "datagram13", "marshal2", "dest2", "marshal3", "rebuild1", "unmarshal22"}
 \* the caller overwrites the packet in place (same object, new field values) between calls:
 \* whatever the library returned before must not influence what it returns now
 Rebuilds(v) == { w \in Vals : w.k = v.k /\ w # v }
@@ -122,6 +122,8 @@ HistCall(op) ==
     [] op = "dest2" -> pk[2].k # "NONE" /\ DestOf(2, DestAny(pk[2]))
     [] op = "marshal3" -> pk[3].k # "NONE" /\ Marshal(3, RefMarshal(pk[3]))
     [] op = "rebuild1" -> Rebuilds(pk[1]) # {} /\ Build(1, CHOOSE w \in Rebuilds(pk[1]) : TRUE)
+    \* the receiver of an earlier decode is used again (its contents do not enter the result)
+    [] op = "unmarshal22" -> pk[2].k # "NONE" /\ Unmarshal(pk[1].k, 1, 2, RefDecode(pk[1].k, buf[1]))
 HistNext ==
   \/ /\ pc = "build" /\ \E v \in Vals : Build(1, v) /\ hist' = << [start |-> v] >>
      /\ pc' = "calls"
